@@ -46,7 +46,8 @@ def usable(c):
     unk, unkw = (c["fxp"], c["fxpw"]) if c["unk"] == 5 else (c["unk"], c["unkw"])
     if unk in (2, 3, 4) and unkw > c["fxpw"]: return False
     # open findings of C02 that make whole configurations unusable (every key pair / validation fails):
-    if not c["proj"] and 1 in (c["fxp"], unk): return False                     # affine BIN_PRECALC_DBL table initialisation
+    if 1 in (c["fxp"], unk): return False      # BIN_PRECALC_DBL: affine table initialisation (open finding of C02); projective: EOVERFLOW for
+                                               # scalars longer than m bits (n of secp160k1/r1/r2 has 161 bits) - reported to C02
     if (c["fxp"] in (3, 4) and c["fxpw"] > c["digit"]) or (unk in (3, 4) and unkw > c["digit"]): return False   # comb window wider than a digit
     if c["digit"] == 128: return False
     return True
@@ -56,7 +57,7 @@ POOL = [   # hand-picked spread over coordinate systems, multipliers and digit w
     dict(digit=32, mulldiv=0, proj=0, mix=0, rdbl=0, fxp=0, fxpw=4, unk=0, unkw=2, twin=0),     # plain affine, binary everything
     dict(digit=8,  mulldiv=1, proj=1, mix=0, rdbl=0, fxp=3, fxpw=4, unk=3, unkw=2, twin=1),     # 8-bit digits: the comb code really runs on the 8-bit curves
     dict(digit=16, mulldiv=0, proj=1, mix=1, rdbl=0, fxp=2, fxpw=4, unk=5, unkw=2, twin=1),     # sliding window, unknown point = same as fixed
-    dict(digit=64, mulldiv=0, proj=1, mix=0, rdbl=0, fxp=1, fxpw=2, unk=1, unkw=2, twin=1),     # precalculated doubles (projective; the affine variant is an open finding of C02)
+    dict(digit=64, mulldiv=0, proj=1, mix=0, rdbl=0, fxp=2, fxpw=2, unk=2, unkw=2, twin=1),     # sliding windows of 2 bits, portable 64-bit multiply/divide
     dict(digit=32, mulldiv=1, proj=1, mix=0, rdbl=1, fxp=4, fxpw=3, unk=4, unkw=2, twin=3),     # 2-table comb for both, interleaving
     dict(digit=16, mulldiv=1, proj=0, mix=0, rdbl=0, fxp=3, fxpw=5, unk=2, unkw=4, twin=0),
     dict(digit=8,  mulldiv=0, proj=1, mix=1, rdbl=1, fxp=4, fxpw=2, unk=0, unkw=1, twin=3),
